@@ -306,7 +306,7 @@ pub mod snapshot {
     use crate::datalog2 as datalog;
     use crate::datalog2::{SymbolTable, World, ExternFunc, Fact, Rule, fs_view, rs_view};
     use crate::datalog::origin::{Origin, TrustedOrigins};
-    use crate::authorizer2::{Authorizer, Duration, RunLimits, verif_map_push};
+    use crate::authorizer2::{Authorizer, AuthorizerBuilder, Duration, RunLimits, verif_map_push};
     use crate::authorizer_builder::load_and_translate_block;
     use crate::crypto::PublicKey;
     use crate::error;
@@ -401,6 +401,20 @@ pub mod snapshot {
     pub open spec fn push_rel(m0: Map<usize, Vec<usize>>, m1: Map<usize, Vec<usize>>, k: usize, v: usize) -> bool {
         m1.dom() == m0.dom().insert(k) && m1[k]@ == (if m0.contains_key(k) { m0[k]@ } else { Seq::<usize>::empty() }).push(v)
         && forall|k2: usize| k2 != k && m0.contains_key(k2) ==> m1[k2] == m0[k2]
+    }
+    impl crate::authorizer2::AuthorizerBuilder {
+        #[verifier::external_body]
+        pub fn new() -> (r: crate::authorizer2::AuthorizerBuilder) { unimplemented!() }
+        //@extract biscuit-auth/src/token/builder/authorizer.rs :: impl AuthorizerBuilder :: fn from_snapshot
+        //@ id token::builder::authorizer::AuthorizerBuilder::from_snapshot
+        //@ sub \(MIN_SCHEMA_VERSION\.\.=MAX_SCHEMA_VERSION\)\.contains\(&version\) => (MIN_SCHEMA_VERSION <= version && version <= MAX_SCHEMA_VERSION)
+        //@ sub crate::token::MIN_SCHEMA_VERSION => MIN_SCHEMA_VERSION
+        //@ sub crate::token::MAX_SCHEMA_VERSION => MAX_SCHEMA_VERSION
+        //@ sub world\s*\.authorizer_policies\s*\.iter\(\)\s*\.map\(\|policy\| proto_policy_to_policy\(policy, &symbols, version\)\)\s*\.collect::<Result<Vec<Policy>, error::Format>>\(\)\? => verif_policies_from(&world.authorizer_policies, &symbols, version)?
+        //@ ensures pristine: r is Ok ==> input.world.blocks@.len() == 0 && input.world.generated_facts@.len() == 0 && input.world.iterations == 0 && input.execution_time == 0
+        //@ ensures version: r is Ok ==> input.world.version is Some && MIN_SCHEMA_VERSION <= input.world.version->Some_0 <= MAX_SCHEMA_VERSION
+        //@ ensures limits: r is Ok ==> r->Ok_0.limits.max_facts == input.limits.max_facts && r->Ok_0.limits.max_iterations == input.limits.max_iterations && r->Ok_0.limits.max_time.nanos == input.limits.max_time
+        //@end
     }
     impl Authorizer {
         //@extract biscuit-auth/src/token/authorizer/snapshot.rs :: impl Authorizer :: fn from_snapshot
@@ -599,6 +613,8 @@ pub mod lspec {
 //@canary snapshot-iterations-dropped :: token::authorizer::snapshot::Authorizer::from_snapshot :: authorizer.world.iterations = world.iterations; ==>> authorizer.world.iterations = 0;
 //@canary snapshot-limits-mixed :: token::authorizer::snapshot::Authorizer::from_snapshot :: max_iterations: limits.max_iterations, ==>> max_iterations: limits.max_facts,
 //@canary-requires token::authorizer::snapshot::Authorizer::from_snapshot
+//@canary builder-snapshot-iterations :: token::builder::authorizer::AuthorizerBuilder::from_snapshot :: if world.iterations != 0 { ==>> if false {
+//@canary-requires token::builder::authorizer::AuthorizerBuilder::from_snapshot
 //@canary-requires token::builder::authorizer::load_and_translate_block
 } // verus!
 fn main() {}
